@@ -228,6 +228,14 @@ func blockReaches(a, b *ssa.BasicBlock) bool {
 
 // classify is (*FnInfo).classify plus the forwarder rule.
 func (e *c01Eng) classify(fi *FnInfo, r *ssa.Return, st state, mode Mode) (int, *ssa.Call, Mode, string) {
+	if mode.Kind == c01mCell {
+		// the answer is the error cell of the object handed in as parameter K: the return is a failure exit exactly when
+		// the function is known to have left a non-nil value there (the engine's mask); anything else may pass
+		if ci := c01ModeCell(fi, mode); ci >= 0 && !fi.volatile[ci] && st.m&(1<<uint(ci)) != 0 {
+			return clFail, nil, Mode{}, ""
+		}
+		return clMaybe, nil, Mode{}, ""
+	}
 	cl, tail, tmode, lbl := fi.classify(r, st, mode)
 	for depth := 0; cl == clMaybe && tail != nil && depth < 4; depth++ {
 		i := e.forwardedParam(tail, tmode)
@@ -663,28 +671,46 @@ type c01Wit struct {
 	DischargedTail func(tail *ssa.Call, tmode Mode) bool
 	// DischargedOp: the exit returns a condition whose label (the fact that holds when it has the wanted value) is the fact required
 	DischargedOp func(label string) bool
+	// CellCalls: calls that report through the error cell (index into fi.cells) of an object they are handed, and whose
+	// passing answer — the cell left nil — discharges the obligation under analysis (see "a step that reports through
+	// the outcome it is handed")
+	CellCalls map[*ssa.Call]int
 }
 
 // successWitness is (*FnInfo).successWitness with classify of this variant.
 func (e *c01Eng) successWitness(fi *FnInfo, mode Mode, starts []state, cut map[edgeKey]bool, opt c01Wit) []string {
+	type fstate struct {
+		s state
+		f uint32 // cells vouched for by a discharging call since they were last written (c01Wit.CellCalls)
+	}
 	type node struct {
 		s      state
+		f      uint32
 		parent int
 	}
 	var nodes []node
-	seen := map[state]bool{}
+	seen := map[fstate]bool{}
 	for _, s := range starts {
-		if !seen[s] {
-			seen[s] = true
-			nodes = append(nodes, node{s, -1})
+		if !seen[fstate{s, 0}] {
+			seen[fstate{s, 0}] = true
+			nodes = append(nodes, node{s, 0, -1})
 		}
 	}
 	for i := 0; i < len(nodes); i++ {
 		s := nodes[i].s
 		b := fi.Fn.Blocks[s.b]
+		flags := nodes[i].f
+		if len(opt.CellCalls) > 0 {
+			flags = c01VouchedThrough(fi, b, flags, opt.CellCalls)
+		}
 		if r, ok := blockTerm(b).(*ssa.Return); ok {
 			endMask := fi.through(b, s.m)
 			cl, tail, tmode, oplbl := e.classify(fi, r, state{s.b, endMask, s.p}, mode)
+			if cl != clFail && flags != 0 {
+				if ci := c01VerdictCell(fi, r, s.p, mode); ci >= 0 && flags&(1<<uint(ci)) != 0 {
+					cl = clFail // the verdict is a cell that a discharging call vouches for: nil only if that call passed
+				}
+			}
 			if cl != clFail && tail != nil && e.tailBlockedByCell(fi, tail, tmode, endMask) {
 				cl = clFail // as in summarizeFrom: the callee reports the error cell of an object that already carries a failure here
 			}
@@ -724,9 +750,9 @@ func (e *c01Eng) successWitness(fi *FnInfo, mode Mode, starts []state, cut map[e
 				}
 			}
 			n := state{t.Index, outs[j], p}
-			if !seen[n] {
-				seen[n] = true
-				nodes = append(nodes, node{n, i})
+			if !seen[fstate{n, flags}] {
+				seen[fstate{n, flags}] = true
+				nodes = append(nodes, node{n, flags, i})
 			}
 		}
 	}
@@ -782,9 +808,15 @@ func (f c01Frame) sub(l string) string {
 // Soundness of (c): the edge `g(args) passed` is taken only when g returned its passing answer; if every passing
 // exit of g lies behind a fact edge (with g's parameters replaced by the arguments, the fact is about the caller's
 // values), then the fact held when the caller took that edge. nFact counts the fact edges found (vacuity).
-func (e *c01Eng) gateHolds(fn *ssa.Function, mode Mode, fr c01Frame, baseCut map[edgeKey]bool, fact func(string) bool, depth int, nFact *int) (bool, []string) {
+//
+// onFrame (optional) is told every frame that is entered before its edges are matched, so that the fact can take into
+// account what that frame establishes itself (c01DecodedHere: the payload a helper decodes from the verified content).
+func (e *c01Eng) gateHolds(fn *ssa.Function, mode Mode, fr c01Frame, baseCut map[edgeKey]bool, fact func(string) bool, depth int, nFact *int, onFrame func(*FnInfo, Mode, c01Frame, map[edgeKey]bool)) (bool, []string) {
 	fi := e.w.Info(fn)
 	sub := fr.sub
+	if onFrame != nil {
+		onFrame(fi, mode, fr, baseCut)
+	}
 	cut := map[edgeKey]bool{}
 	for k := range baseCut {
 		cut[k] = true
@@ -805,7 +837,7 @@ func (e *c01Eng) gateHolds(fn *ssa.Function, mode Mode, fr c01Frame, baseCut map
 			gd[i] = sub(gd[i])
 		}
 		n := 0
-		holds, _ := e.gateHolds(g, m, c01CalleeFrame(gn, gd), nil, fact, depth+1, &n)
+		holds, _ := e.gateHolds(g, m, c01CalleeFrame(gn, gd), nil, fact, depth+1, &n, onFrame)
 		*nFact += n
 		return holds && n > 0
 	}
@@ -913,6 +945,7 @@ func (m *c01Meta) holds(fn *ssa.Function, mode Mode, fr c01Frame, anns []string,
 		return true, nil, site
 	}
 	good := map[*ssa.Call]Mode{}
+	cellCalls := map[*ssa.Call]int{}
 	for _, ci := range allCalls(fn) {
 		call, ok := ci.(*ssa.Call)
 		if !ok {
@@ -941,8 +974,23 @@ func (m *c01Meta) holds(fn *ssa.Function, mode Mode, fr c01Frame, anns []string,
 		} else if isBoolType(call.Type()) {
 			modes = []Mode{{Kind: mBool, Want: true}, {Kind: mBool, Want: false}}
 		}
+		// … or reports through the error cell of an object it is handed (whatever else it returns)
+		cellOfMode := map[Mode]int{}
+		if !call.Call.IsInvoke() && g.Recover == nil {
+			for j, a := range call.Call.Args {
+				ef := errFieldOf(a.Type())
+				if ef < 0 {
+					continue
+				}
+				if ci, ok := fi.cellOf[cellKey{canonPtr(unwrap(a)), ef}]; ok && !fi.volatile[ci] && ci < 30 {
+					cm := Mode{Kind: c01mCell, K: j}
+					cellOfMode[cm] = ci
+					modes = append(modes, cm)
+				}
+			}
+		}
 		for _, gm := range modes {
-			k := fnName(g) + "|" + gm.String() + "|" + fmt.Sprint(gd) + "|" + fmt.Sprint(anns)
+			k := fnName(g) + "|" + fmt.Sprint(gm.Kind) + gm.String() + "|" + fmt.Sprint(gd) + "|" + fmt.Sprint(anns)
 			res, done := m.memo[k]
 			if !done {
 				m.memo[k] = false
@@ -953,6 +1001,10 @@ func (m *c01Meta) holds(fn *ssa.Function, mode Mode, fr c01Frame, anns []string,
 				continue
 			}
 			site = w.InstrPos(call)
+			if gm.Kind == c01mCell {
+				cellCalls[call] = cellOfMode[gm]
+				break
+			}
 			good[call] = gm
 			var lbl string
 			if gm.Kind == mErr {
@@ -976,12 +1028,35 @@ func (m *c01Meta) holds(fn *ssa.Function, mode Mode, fr c01Frame, anns []string,
 	}
 	wit := m.e.successWitness(fi, mode, entryState(), cut, c01Wit{
 		DischargedTail: func(tail *ssa.Call, tm Mode) bool { gm, ok := good[tail]; return ok && gm == tm },
+		CellCalls:      cellCalls,
 	})
 	return wit == nil, wit, site
 }
 
 // json.Unmarshal(src, *envelope.Payload) err == nil, in the entry frame (the target may be a callee's tagged allocation)
 var c01ReUnmarshal = regexp.MustCompile(`^EQ\(call:encoding/json\.Unmarshal\((.+),(alloc(?:#\d+)?:ngo/internal/envelope\.Payload<[^>]*>)\)#err,nil\)$`)
+
+// c01DecodedHere: the envelope.Payload objects (entry frame; a callee's own allocation carries the tag of its frame) that
+// the function of fi decodes itself — json.Unmarshal with its error checked on every passing path that avoids the cut
+// edges — from `content`, the payload bytes of the outcome that went through integrity verification. Such an object
+// holds the signed payload just as the one the entry point decodes does: a comparison against its target artifact is a
+// comparison against the signed target, whichever function of the call tree does the decoding. The allocation must be
+// the only one of the function that is described that way (descriptions name an allocation by type and syntax).
+func (e *c01Eng) c01DecodedHere(fi *FnInfo, mode Mode, fr c01Frame, cut map[edgeKey]bool, content string) []string {
+	var out []string
+	s := e.summarizeFrom(fi, mode, entryState(), cut)
+	for _, l := range labelList(s.Checked) {
+		mm := c01ReUnmarshal.FindStringSubmatch(fr.sub(l))
+		if mm == nil || mm[1] != content {
+			continue
+		}
+		if raw := c01ReUnmarshal.FindStringSubmatch(l); raw == nil || c01AllocsDescribed(fi.Fn, raw[2]) != 1 {
+			continue
+		}
+		out = append(out, mm[2])
+	}
+	return out
+}
 
 // annotations extends the descriptions (entry frame) under which the signed annotations map may be named — the entry
 // point's decoded payload, and what the callers on the way down decoded — by every envelope.Payload fn decodes itself
@@ -1007,13 +1082,22 @@ func (m *c01Meta) loop(fn *ssa.Function, mode Mode, fr c01Frame, anns []string, 
 	fi := w.Info(fn)
 	c.SeenFn(fn.String())
 	if !report {
+		// a dry run records nothing: obligations added are dropped, and obligations that exist already (a repeated key is
+		// overwritten in place by a worse status) get their content back
 		saved := c.Obls
+		vals := make([]Obligation, len(saved))
+		for i, o := range saved {
+			vals[i] = *o
+		}
 		savedKeys := map[string]*Obligation{}
 		for k, v := range c.byKey {
 			savedKeys[k] = v
 		}
 		res := m.loop(fn, mode, fr, anns, true)
 		c.Obls = saved
+		for i, o := range saved {
+			*o = vals[i]
+		}
 		c.byKey = savedKeys
 		return res
 	}
@@ -1902,4 +1986,262 @@ func c01SkipEdges(fi *FnInfo, depth int) map[edgeKey]bool {
 		out[k] = true
 	}
 	return out
+}
+
+// ---- the signature bytes read back from the object they were put into ------------------------
+//
+// Class of rewrite: a parameter of the entry point is not handed on as such but travels inside an object the entry point
+// builds (the outcome literal `&VerificationOutcome{RawSignature: signature, …}` handed to an inner method that parses
+// `outcome.RawSignature`). The clause "the envelope that is parsed and verified is the signature the caller submitted"
+// is then stated about `<object>.F` instead of the parameter. c01ParamAliases returns the descriptions (entry frame)
+// `<alloc>.F` that denote the parameter selected by pred, by a single-assignment argument that is field sensitive and
+// type based, not flow based:
+//
+//	(A) the object is one allocation site a of the entry point (not in a loop, the only one of the entry point that is
+//	    described that way and none of the functions on the call tree allocates a look-alike);
+//	(B) in a's own block, before any call and before any read of the field, a.F is stored with the SSA parameter itself
+//	    (SSA parameters are immutable; a reassigned parameter is not an *ssa.Parameter at the store);
+//	(C) on the whole static call tree of the entry point (closures included) that store is the ONLY store to field F of
+//	    the object's named type, the address of such a field is never used for anything but that store and loads, and no
+//	    value of the struct type is stored as a whole (`*o = T{…}`);
+//	(D) no dynamic or interface call on the tree is handed a pointer to the type (code that is not on the static tree
+//	    could write the field).
+//
+// Under (A)–(D) every load of F from that object, anywhere on the tree and at any time after the literal was built, yields
+// the parameter: the two descriptions name one value and a fact stated about one is the fact about the other. (Code
+// outside the module cannot name the field; reflection and unsafe are out of scope as everywhere in this analyser.)
+func c01ParamAliases(w *World, fn *ssa.Function, pred func(types.Type) bool) []string {
+	var par *ssa.Parameter
+	for _, p := range fn.Params {
+		if pred(p.Type()) {
+			par = p
+			break
+		}
+	}
+	if par == nil {
+		return nil
+	}
+	tree := w.moduleCallees(fn)
+	var out []string
+	for _, b := range fn.Blocks {
+		for i, in := range b.Instrs {
+			a, ok := in.(*ssa.Alloc)
+			if !ok || blockReaches(b, b) {
+				continue
+			}
+			tn := namedOf(a.Type())
+			pt, isPtr := a.Type().(*types.Pointer)
+			if tn == "" || !isPtr {
+				continue
+			}
+			if _, isStruct := pt.Elem().Underlying().(*types.Struct); !isStruct {
+				continue
+			}
+			// (B)
+			var st *ssa.Store
+			field := -1
+		scan:
+			for _, nx := range b.Instrs[i+1:] {
+				switch x := nx.(type) {
+				case ssa.CallInstruction:
+					break scan
+				case *ssa.UnOp:
+					if x.Op == token.MUL {
+						if fa, ok := x.X.(*ssa.FieldAddr); ok && fa.X == ssa.Value(a) {
+							break scan
+						}
+					}
+				case *ssa.Store:
+					if fa, ok := x.Addr.(*ssa.FieldAddr); ok && fa.X == ssa.Value(a) && x.Val == ssa.Value(par) {
+						st, field = x, fa.Field
+						break scan
+					}
+				}
+			}
+			if st == nil {
+				continue
+			}
+			// (A)
+			ad := desc(a)
+			okA := c01AllocsDescribed(fn, ad) == 1
+			for _, g := range tree {
+				if g != fn && c01AllocsDescribed(g, ad) > 0 {
+					okA = false
+				}
+			}
+			if !okA {
+				continue
+			}
+			// (C), (D)
+			okC := true
+			for _, g := range tree {
+				for _, gb := range g.Blocks {
+					for _, gin := range gb.Instrs {
+						switch x := gin.(type) {
+						case *ssa.FieldAddr:
+							if x.Field != field || namedOf(x.X.Type()) != tn {
+								continue
+							}
+							if x.Referrers() == nil {
+								continue
+							}
+							for _, u := range *x.Referrers() {
+								switch y := u.(type) {
+								case *ssa.DebugRef:
+								case *ssa.UnOp:
+									if y.Op != token.MUL {
+										okC = false
+									}
+								case *ssa.Store:
+									if y != st {
+										okC = false
+									}
+								default:
+									okC = false
+								}
+							}
+						case *ssa.Store:
+							if namedOf(x.Val.Type()) == tn {
+								if _, isP := x.Val.Type().(*types.Pointer); !isP {
+									okC = false // the struct is overwritten as a whole
+								}
+							}
+						case ssa.CallInstruction:
+							h := staticCallee(x)
+							if h != nil && (h.Blocks == nil || w.IsProductFn(h)) && !x.Common().IsInvoke() {
+								continue
+							}
+							if h != nil && !w.IsProductFn(h) {
+								continue // code outside the module cannot name the field
+							}
+							for _, arg := range callArgs(x) {
+								if _, isP := unwrap(arg).Type().(*types.Pointer); isP && namedOf(unwrap(arg).Type()) == tn {
+									okC = false
+								}
+							}
+						}
+					}
+				}
+			}
+			if okC {
+				out = append(out, ad+"."+fieldName(a.Type(), field))
+			}
+		}
+	}
+	return out
+}
+
+// ---- a step that reports through the outcome it is handed ------------------------------------
+//
+// Class of rewrite: a check is moved into a helper that has no verdict among its results; it is handed the outcome and
+// records a failure there,
+//
+//	func check(…, required map[string]string, outcome *Outcome) {
+//		if len(required) == 0 { return }
+//		if err := verify(…); err != nil { outcome.Error = err }
+//	}
+//	…
+//	check(…, opts.UserMetadata, outcome)
+//	return outcome, outcome.Error
+//
+// The answer of such a call is the error cell (object handed as argument K, its one error field) after the call: the
+// mode c01mCell{K}. Under that mode a return of the helper is a failure exit exactly when the engine's mask says that the
+// helper left a provably non-nil value in the cell (stored there, not clobbered afterwards); every other return is
+// treated as passing-capable (more passing exits than there really are: conservative). The obligation is decided for the
+// helper under that mode by the same recursive path argument as for any other answer (c01Meta.holds).
+//
+// In the caller the passing answer is not a branch edge. It is used as follows (successWitness, c01Wit.CellCalls): the
+// search carries, per cell, the flag "a discharging call was handed this object and since it returned nothing wrote the
+// cell" — set at the call, cleared by any later store to the cell and by any later call that may overwrite it (the
+// engine's own clobber rule, the one sticky failures rest on). An exit whose verdict IS that cell (it returns the load
+// of the cell as its error, or, in a function analysed under c01mCell, the cell is its answer) reached with the flag set
+// is not a success exit that escapes the obligation: it succeeds only if the cell is nil, the cell is what the helper
+// left there, and the helper leaves it nil only on its passing exits, all of which lie behind the check.
+// The object must be the same SSA object (cell index of the caller), so a helper that is handed another outcome than
+// the one whose error is returned vouches for nothing.
+
+const c01mCell = 16
+
+// c01ModeCell: the cell of fi that is the answer under mode c01mCell{K}; -1 if the function never refers to it.
+func c01ModeCell(fi *FnInfo, mode Mode) int {
+	if mode.Kind != c01mCell || mode.K < 0 || mode.K >= len(fi.Fn.Params) {
+		return -1
+	}
+	p := fi.Fn.Params[mode.K]
+	ef := errFieldOf(p.Type())
+	if ef < 0 {
+		return -1
+	}
+	if ci, ok := fi.cellOf[cellKey{ssa.Value(p), ef}]; ok {
+		return ci
+	}
+	return -1
+}
+
+// c01VerdictCell: the cell whose nil-ness is the verdict of return r (entered through predecessor pred) under mode.
+func c01VerdictCell(fi *FnInfo, r *ssa.Return, pred int, mode Mode) int {
+	switch mode.Kind {
+	case c01mCell:
+		return c01ModeCell(fi, mode)
+	case mErr:
+		v := modeOperand(r, mode)
+		if v == nil {
+			return -1
+		}
+		if p, ok := v.(*ssa.Phi); ok && p.Block() == r.Block() && pred >= 0 && pred < len(p.Edges) {
+			v = p.Edges[pred]
+		}
+		ci := fi.cellOfLoad(v)
+		if ci < 0 || fi.volatile[ci] {
+			return -1
+		}
+		// the load must see what was left in the cell: nothing but the return follows it in the returning block
+		u, ok := v.(*ssa.UnOp)
+		if !ok || u.Block() != r.Block() {
+			return -1
+		}
+		after := false
+		for _, in := range r.Block().Instrs {
+			if in == ssa.Instruction(u) {
+				after = true
+				continue
+			}
+			if !after {
+				continue
+			}
+			switch in.(type) {
+			case *ssa.Store, ssa.CallInstruction:
+				return -1
+			}
+		}
+		return ci
+	}
+	return -1
+}
+
+// c01VouchedThrough: the flags after the instructions of block b.
+func c01VouchedThrough(fi *FnInfo, b *ssa.BasicBlock, flags uint32, cellCalls map[*ssa.Call]int) uint32 {
+	for _, in := range b.Instrs {
+		switch x := in.(type) {
+		case *ssa.Store:
+			if ci := fi.cellOfAddr(x.Addr); ci >= 0 {
+				flags &^= 1 << uint(ci)
+			}
+		case ssa.CallInstruction:
+			flags = c01Unvouch(fi, x, flags) // (what the call may do to the cells vouched for so far)
+			if c, ok := x.(*ssa.Call); ok {
+				if ci, ok := cellCalls[c]; ok {
+					flags |= 1 << uint(ci)
+				}
+			}
+		}
+	}
+	return flags
+}
+
+func c01Unvouch(fi *FnInfo, c ssa.CallInstruction, flags uint32) uint32 {
+	if flags == 0 {
+		return 0
+	}
+	return uint32(fi.clobber(c, uint64(flags))) & flags
 }
